@@ -120,10 +120,10 @@ CHECKS = {
              "imaginary-time CMF within the scheme's bound; ThermalProp from the maximally entangled state of generated Holstein models "
              "(schemes 1-4, zero- and one-exciton) vs a dense replica with the same energy re-centring and vs canonical Gibbs averages; "
              "exact thermal propagation and the closed-form local propagator (GS/EX, real/imaginary/complex x, shift) vs the dense "
-             "exponential of the documented local Hamiltonian; evolve_exact for two offsets (same result, input untouched).",
+             "exponential of the documented local Hamiltonian; evolve_exact for two offsets (same result, input untouched); tree purification with auxiliary space vs a dense replica and Gibbs averages.",
         design_ref="DESIGN.md §4 C10",
         note="Trusted: numpy eigh-based exponentials, harness ladder matrices for the local Hamiltonian; dense Holstein H via Mpo.todense (C16). "
-             "tau*||H|| <= 3; tree purification is covered in C12.",
+             "tau*||H|| <= 3. Tree purification: max_entangled_ex on tree.add_auxiliary_space() with a TTNO on the physical half (mode thermal_tree).",
         technique="property-based testing (Hypothesis) with dense Gibbs/propagator oracle, algebraic replicas and a metamorphic offset relation",
     ),
     "C11": dict(
